@@ -288,6 +288,86 @@ Theorem C18_lib_premise_satisfiable : forall ok, lib_ok toy_lib ok.
 Proof. exact final_lib_premise_satisfiable. Qed.
 Print Assumptions C18_lib_premise_satisfiable.
 
+(* ---- the premises hold for the library the checks RUN: Model/LibPartial.v libfull2 = LibCore + arraySort (which calls its
+   comparator back through the interpreter) + the ~70 functions lifted from LibSeq / LibMore + systemPartial closures (calling
+   one is a raw call of the bound function through the callback).  Proofs/C18LibFull.v: the world relations of both simulations
+   keep globals, heaps, log and fetched URLs EQUAL (function values are indices into the function table, so the values stored
+   in arrays - also in the hidden arrays of closures - are equal on both sides); the functions that do not call back commute
+   with replacing the function table and the counter; arraySort by "two sorts in step" (Proofs/LibCall.v). ---- *)
+From BS Require Import Model.LibAll Model.LibPartial.
+From BS Require Proofs.C18LibFull.
+
+Theorem C18_combined_library_meets_the_premise : forall cfg ok, lib_ok (libfull2 cfg) ok.
+Proof. exact C18LibFull.libfull2_lib_ok. Qed.
+Print Assumptions C18_combined_library_meets_the_premise.
+
+Theorem C18_combined_library_meets_the_converse_premise : forall cfg ok, C18SimR.lib_okR (libfull2 cfg) ok.
+Proof. exact C18LibFull.libfull2_lib_okR. Qed.
+Print Assumptions C18_combined_library_meets_the_converse_premise.
+
+(* the same for libfull (without closures) *)
+Theorem C18_libfull_meets_the_premises : forall cfg ok, lib_ok (libfull cfg) ok /\ C18SimR.lib_okR (libfull cfg) ok.
+Proof. intros cfg ok. split; [apply C18LibFull.libfull_lib_ok|apply C18LibFull.libfull_lib_okR]. Qed.
+Print Assumptions C18_libfull_meets_the_premises.
+
+(* ... so the soundness theorems hold for the combined library WITHOUT a premise on the library (the library's options record and
+   the interpreter's may differ: [cfg'] is the library's) *)
+Theorem C18_unused_label_delete_combined_library : forall cfg cfg' url_rel lint_lines,
+  c_max cfg = 0%Z ->
+  forall s l i, In (WUnusedLabel l i) (lint s) ->
+  nth_error s i = Some (SLabel l) /\
+  run_le cfg (libfull2 cfg') url_rel lint_lines false s (remove_at i s) /\
+  run_le cfg (libfull2 cfg') url_rel lint_lines false (remove_at i s) s.
+Proof.
+  intros cfg cfg' url_rel lint_lines H. apply C18_unused_label_delete; [exact H|apply C18_combined_library_meets_the_premise].
+Qed.
+Print Assumptions C18_unused_label_delete_combined_library.
+
+Theorem C18_unused_var_rename_combined_library : forall cfg cfg' url_rel lint_lines,
+  c_max cfg = 0%Z ->
+  forall s x f i x', In (WUnusedVar x f i) (lint s) ->
+  exists k args a b body, nth_error s k = Some (SFunction f args a b body) /\
+    (unread x' body = true ->
+     let s' := set_stmt s k (SFunction f args a b (rename_body x x' body)) in
+     run_le cfg (libfull2 cfg') url_rel lint_lines false s s' /\ run_le cfg (libfull2 cfg') url_rel lint_lines false s' s).
+Proof.
+  intros cfg cfg' url_rel lint_lines H. apply C18_unused_var_rename; [exact H|apply C18_combined_library_meets_the_premise].
+Qed.
+Print Assumptions C18_unused_var_rename_combined_library.
+
+Theorem C18_pointless_delete_combined_library : forall cfg cfg' url_rel lint_lines,
+  c_max cfg = 0%Z ->
+  forall s i, In (WPointless i) (lint s) ->
+  exists e, nth_error s i = Some (SExpr None e) /\ pointless e = true /\
+    run_le cfg (libfull2 cfg') url_rel lint_lines true s (remove_at i s) /\
+    (C18SimR.never_declines cfg (libfull2 cfg') url_rel lint_lines e ->
+     C18SimR.run_ge cfg (libfull2 cfg') url_rel lint_lines false (S (C18SimR.edepth e)) (remove_at i s) s).
+Proof.
+  intros cfg cfg' url_rel lint_lines H.
+  apply C18_pointless_delete; [exact H|apply C18_combined_library_meets_the_premise|apply C18_combined_library_meets_the_converse_premise].
+Qed.
+Print Assumptions C18_pointless_delete_combined_library.
+
+(* non-vacuity for THIS library: a script with an unused label that sorts through a CLOSURE over arraySort with a SCRIPT comparator
+   that logs (p = systemPartial(arraySort, a); p(cmp)): lint reports the label; with and without it the run returns 3, logs twice,
+   leaves [3,2,1] and the closure's hidden array [arraySort, a] *)
+Example C18_combined_library_example :
+  let s := [SFunction (U "cmp") (Some [U "a"; U "b"]) false false
+              [SExpr None (ECall (U "systemLog") [EStr (U "c")]); SReturn (Some (EBin (U "-") (EVar (U "b")) (EVar (U "a"))))];
+            SExpr (Some (U "a")) (ECall (U "arrayNew") [ENum (NInt 1); ENum (NInt 2); ENum (NInt 3)]);
+            SLabel (U "unused");
+            SExpr (Some (U "p")) (ECall (U "systemPartial") [EVar (U "arraySort"); EVar (U "a")]);
+            SExpr None (ECall (U "p") [EVar (U "cmp")]);
+            SReturn (Some (ECall (U "arrayGet") [EVar (U "a"); ENum (NInt 0)]))] in
+  let cfg := {| c_max := 0; c_debug := false; c_haslog := true; c_sysprefix := None; c_fetch := None; c_urlfn := None |} in
+  let run c := let r := execute_script cfg (libfull2 cfg) (fun _ u => u) (fun _ => nil) 20 c (world0 nil) in
+               (fst r, w_log (snd r), w_arrs (snd r)) in
+  lint s = (WUnusedLabel (U "unused") 2 :: nil) /\
+  run s = (OVal (VNum (NInt 3)), (U "c" :: U "c" :: nil),
+           ((VNum (NInt 3) :: VNum (NInt 2) :: VNum (NInt 1) :: nil) :: (VFun (FLib (U "arraySort")) :: VArr 0 :: nil) :: nil)) /\
+  run (remove_at 2 s) = run s.
+Proof. vm_compute. repeat split. Qed.
+
 (* known finding F26: the nested scope is not visited *)
 Example C18_nested_scope_refuted :
   let inner := [SJump (U "zz") None] in
